@@ -124,6 +124,7 @@ package lexer
 //@ at call send#0: assert [tile-end] sent.Pos + len(sent.Value) == l.pos
 //@ at call send#0: assert [C08,proto] expOK(l.exp, sent.Type)
 //@ at call send#0: assert [C08,line-range] 1 <= sent.Line && sent.Line <= nlines(l.input)
+//@ at call send#0: assert [token-shape,string-value] sent.Type == token.STRING ==> quoted(sent.Value)
 //@ at call send#0: ghost l.tokEnd = l.pos
 //@ at call send#0: ghost l.done = (t == token.EOF)
 //@ at call send#0: ghost l.exp = expNext(l.exp, t)
@@ -273,6 +274,7 @@ package lexer
 //@ modifies strmLeft, strmDone, strmExp, strmLastT, strmN
 //@ ensures SInv() && TokOK(result) && strmLastT == result.Type
 //@ ensures [F1] strmN == old(strmN) + 1 && result == strmAll[old(strmN)]
+//@ ensures [token-shape] result.Type == token.STRING ==> quoted(result.Value)
 //@ ensures old(strmLeft) >= 1 && strmLeft == old(strmLeft) - 1
 //@ ensures strmDone == (result.Type == token.EOF || result.Type == token.ERROR)
 //@ ensures expOK(old(strmExp), result.Type) && strmExp == expNext(old(strmExp), result.Type)
